@@ -369,6 +369,7 @@ def dispatch_table(ck, ctx):
 
 
 def run(ck, ctx):
+    C.adapter_census(ck, ctx, "sinks", ("canon::", "load::", "graph::"))
     component_step(ck, ctx)
     dispatch_table(ck, ctx)
     sinks(ck, ctx)
